@@ -98,9 +98,14 @@ func genCall(s *core.Stats, fns []*fn) *rapid.Generator[Call] {
 }
 
 // pickUniform: rapid's SampledFrom / IntRange favour small values; groups and
-// functions must be covered evenly, so the index is a mix of one rapid draw.
+// functions must be covered evenly, so the index is the head of a rapid
+// permutation (drawn without bias).
 func pickUniform(t *rapid.T, label string, n int) int {
-	return int(core.SplitMix(rapid.Uint64().Draw(t, label)) % uint64(n))
+	idx := make([]int, n)
+	for i := range idx {
+		idx[i] = i
+	}
+	return rapid.Permutation(idx).Draw(t, label)[0]
 }
 
 func renderedSize(f *fn, a A) string {
@@ -209,6 +214,56 @@ func account(s *core.Stats, c *core.Case, calls []Call, v verdict) {
 	}
 	// c.Done() adds one evaluation for the case itself
 	s.Eval(int64(n) - 1)
+}
+
+// TestIsPrintExhaustive compares strconv.IsPrint and IsGraphic on every rune
+// 0..0x110FFF (one driver, 273 blocks of 4096 runes): the Quote family depends
+// on these tables, whose contents depend on the Unicode version.
+func TestIsPrintExhaustive(t *testing.T) {
+	if !core.FirstShard() {
+		t.Skip("first shard only")
+	}
+	s := core.NewStats(prop, "IsPrintExhaustive")
+	defer s.Flush()
+	s.Rule("enumeration of every rune 0..0x110FFF through strconv.IsPrint and strconv.IsGraphic in one Wa driver, compared block-wise (4096 runes) with Go's tables (exhaustive); non-trivial = a block containing both printable and non-printable runes")
+	s.Exhaustive(true)
+	var calls []Call
+	var expected []string
+	for b := 0; b < numPrintBlocks; b++ {
+		c := Call{F: "strconv.IsPrint+IsGraphic#block4096", A: []string{encI(int64(b))}}
+		calls = append(calls, c)
+		e, _, _ := goExpected(registry[c.F], c.A)
+		expected = append(expected, e)
+	}
+	v := runCalls(theWorker(), calls, expected)
+	if v.inconclusive != "" {
+		s.Counter("inconclusive_drivers", 1)
+		s.Note("inconclusive driver (no verdict): " + tailStr(v.inconclusive, 300))
+		return
+	}
+	n := v.evaluated
+	if v.failIdx >= 0 {
+		n = v.failIdx + 1
+	}
+	s.Eval(int64(n) * 4096 * 2)
+	for i := 0; i < n; i++ {
+		if strings.Trim(expected[i], "0") != "" && strings.Trim(expected[i], "5f") != "" {
+			s.Nontrivial(core.Hash64("blk", i))
+			if i%40 == 0 {
+				s.Sample(payload{Calls: calls[i : i+1]})
+			}
+		}
+	}
+	if v.failIdx >= 0 {
+		c := s.NewCase(t)
+		c.Set(payload{Calls: calls[v.failIdx : v.failIdx+1]})
+		// name the first differing rune
+		what := v.what
+		if len(what) > 300 {
+			what = what[:300] + "…"
+		}
+		c.Fail(fmt.Sprintf("strconv.IsPrint/block-0x%03x", v.failIdx), "IsPrint/IsGraphic tables differ from Go's in runes 0x%x..0x%x: %s", v.failIdx*4096, v.failIdx*4096+4095, what)
+	}
 }
 
 // ---------------------------------------------------------------- replay
